@@ -372,10 +372,62 @@ LEAVES = [0, 1, -3, 7, 'a', 'a.b', '[0]', '', 'text', None, True, False, 0.5, -2
           (), (1, 2), ('t', (3,)), 10 ** 12]
 
 
-def gen_leaf(rng):
-  if rng.random() < 0.08:
+def gen_leaf(rng, opts=None):
+  if rng.random() < 0.08 and not (opts and opts.get('json_leaves')):
     return {'t': 'v', 'v': M.Leaf(rng.randint(0, 3))}
   return {'t': 'v', 'v': rng.choice(LEAVES)}
+
+
+def describe(v):
+  """Description of an existing value by trusted navigation (sym_keys /
+  sym_getattr of symbolic containers, keys / indices of plain ones). A pg.Ref
+  is a leaf ("treated as leaf nodes in the symbolic tree"); any other
+  pg.Object is a container of its symbolic fields."""
+  if isinstance(v, pg.Ref) or not isinstance(v, (dict, list, pg.Object)):
+    return {'t': 'v', 'v': v}
+  if isinstance(v, pg.Object):
+    return {'t': 'O', 'sym': True, 'cls': type(v).__name__,
+            'items': [(k, describe(v.sym_getattr(k))) for k in v.sym_keys()]}
+  sym = isinstance(v, pg.Symbolic)
+  if isinstance(v, dict):
+    keys = list(v.sym_keys()) if sym else list(v)
+    return {'t': 'D', 'sym': sym,
+            'items': [(k, describe(v.sym_getattr(k) if sym else v[k])) for k in keys]}
+  return {'t': 'L', 'sym': sym,
+          'items': [describe(v.sym_getattr(j) if sym else v[j]) for j in range(len(v))]}
+
+
+def prebuilt(obj):
+  d = describe(obj)
+  d['obj'] = obj
+  return d
+
+
+def gen_inferential(rng, opts):
+  """A pg.Inferential member: pg.Ref to an object / symbolic or plain container
+  outside the tree (also one referenced object under several Refs),
+  ValueFromParentChain, contextual attribute."""
+  ext = opts.setdefault('ext', [])
+  r = rng.random()
+  if r < 0.6:
+    q = rng.random()
+    if ext and q < 0.3:
+      target = rng.choice(ext)
+    else:
+      inner = rng.choice([1, 'a', [2, {'k': 3}], {'a.b': [4]}])
+      target = rng.choice([
+          lambda: M.Any2(x=inner, y=rng.choice(LEAVES)),
+          lambda: pg.Dict({rng.choice(['a', 'x', '0', 'a.b']): inner, 'y': 2}),
+          lambda: pg.List([inner, 5]),
+          lambda: {'a': inner, 'x': [1]},
+          lambda: [inner, {'x': 1}]])()
+      ext.append(target)
+    return {'t': 'v', 'v': pg.Ref(target)}
+  if r < 0.8:
+    return prebuilt(pg.symbolic.ValueFromParentChain())
+  if r < 0.9:
+    return prebuilt(pg.contextual_attribute())
+  return prebuilt(pg.contextual_attribute(default=rng.choice([3, 'd', None])))
 
 
 def gen_keys(rng, n, ints):
@@ -415,10 +467,16 @@ class Budget:
     self.n = n
 
 
-def gen_tree(rng, depth, sym, budget, opts, root=False):
-  """A value description: {'t': 'D'|'L'|'O'|'v', 'sym': bool, 'items': [...]}."""
+def gen_tree(rng, depth, sym, budget, opts, root=False, holder=None):
+  """A value description: {'t': 'D'|'L'|'O'|'v', 'sym': bool, 'items': [...]}.
+
+  opts['inferential'] = 'D'|'L'|'O': pg.Inferential members are generated,
+  held directly by symbolic containers of that one kind."""
+  inf = opts.get('inferential')
+  if inf and sym and holder == inf and rng.random() < 0.3:
+    return gen_inferential(rng, opts)
   if not root and (depth >= opts['maxdepth'] or budget.n <= 0 or rng.random() < 0.45):
-    return gen_leaf(rng)
+    return gen_leaf(rng, opts)
   kinds = ['D', 'D', 'L']
   if opts['objects']:
     kinds.append('O')
@@ -429,7 +487,10 @@ def gen_tree(rng, depth, sym, budget, opts, root=False):
     sym = True
   n = rng.choice([0, 1, 2, 2, 3, 3, 4, 5]) if not root else rng.randint(1, 5)
   budget.n -= n
-  child = lambda: gen_tree(rng, depth + 1, sym, budget, opts)
+  child = lambda: gen_tree(rng, depth + 1, sym, budget, opts, holder=t)
+  if inf == 'O' and t == 'O' and rng.random() < 0.3:
+    # contextual objects: the child's attribute is a contextual attribute
+    return prebuilt(M.CtxParent(v=rng.choice(LEAVES), child=M.CtxChild()))
   if t == 'D':
     keys = gen_keys(rng, n, ints=sym and opts['int_keys'])
     return {'t': 'D', 'sym': sym, 'items': [(k, child()) for k in keys]}
@@ -438,7 +499,7 @@ def gen_tree(rng, depth, sym, budget, opts, root=False):
       extra = rng.randint(10, 13) - n
       budget.n -= extra
       return {'t': 'L', 'sym': sym,
-              'items': [child() for _ in range(n)] + [gen_leaf(rng) for _ in range(extra)]}
+              'items': [child() for _ in range(n)] + [gen_leaf(rng, opts) for _ in range(extra)]}
     return {'t': 'L', 'sym': sym, 'items': [child() for _ in range(n)]}
   return {'t': 'O', 'sym': True, 'cls': rng.choice(OBJ_CLASSES),
           'items': [('x', child()), ('y', child())]}
@@ -459,18 +520,75 @@ def construct(name, fn, members):
     raise BuildFailed(name, e, members) from e
 
 
-def build(d):
+def build(d, memo=None):
+  """The value of a description. A description node that occurs at several
+  places (see `graft_aliases`) is built once: the same object at every place."""
   t = d['t']
   if t == 'v':
     return d['v']
+  if 'obj' in d:
+    return d['obj']
+  memo = {} if memo is None else memo
+  if id(d) in memo:
+    return memo[id(d)]
   if t == 'D':
-    v = {k: build(ch) for k, ch in d['items']}
-    return construct('pg.Dict', lambda: pg.Dict(v), v) if d['sym'] else v
-  if t == 'L':
-    v = [build(ch) for ch in d['items']]
-    return construct('pg.List', lambda: pg.List(v), v) if d['sym'] else v
-  kw = {k: build(ch) for k, ch in d['items']}
-  return construct('pg.Object', lambda: getattr(M, d['cls'])(**kw), kw)
+    v = {k: build(ch, memo) for k, ch in d['items']}
+    out = construct('pg.Dict', lambda: pg.Dict(v), v) if d['sym'] else v
+  elif t == 'L':
+    v = [build(ch, memo) for ch in d['items']]
+    out = construct('pg.List', lambda: pg.List(v), v) if d['sym'] else v
+  else:
+    kw = {k: build(ch, memo) for k, ch in d['items']}
+    out = construct('pg.Object', lambda: getattr(M, d['cls'])(**kw), kw)
+  memo[id(d)] = out
+  return out
+
+
+def graft_aliases(rng, d):
+  """Puts description nodes of a plain region at further places of it, so that
+  the built value holds the SAME object (plain or symbolic container, leaf
+  object) at several paths. Returns the number of extra occurrences."""
+  def below(n, acc):
+    acc.add(id(n))
+    for _, ch in children(n):
+      if id(ch) not in acc:
+        below(ch, acc)
+    return acc
+
+  n_alias = 0
+  for _ in range(rng.randint(1, 3)):
+    conts, donors = [], []
+
+    def walk(n):
+      if n['t'] in 'DL' and not n['sym'] and id(n) not in [id(c) for c in conts]:
+        conts.append(n)
+        for _, ch in children(n):
+          donors.append(ch)
+          walk(ch)
+    walk(d)
+    big = [x for x in donors if x['t'] != 'v' and children(x)]
+    if not donors:
+      break
+    donor = rng.choice(big) if big and rng.random() < 0.75 else rng.choice(donors)
+    if len(positions(donor)) > 12:
+      continue
+    inside = below(donor, set())
+    targets = [c for c in conts if id(c) not in inside]
+    if not targets:
+      continue
+    for t in rng.sample(targets, min(len(targets), rng.choice([1, 1, 2]))):
+      if len(positions(d)) > 90:
+        break
+      if t['t'] == 'D':
+        have = [tk([k]) for k, _ in t['items']]
+        k = rng.choice(['al', 'a', 'z', 'a.b', '0', str_key(rng)])
+        if tk([k]) in have:
+          continue
+        t['items'].insert(rng.randint(0, len(t['items'])), (k, donor))
+      else:
+        t['items'].insert(rng.randint(0, len(t['items'])), donor)
+      n_alias += 1
+  return n_alias
 
 
 def build_root(ctx, d):
@@ -504,7 +622,7 @@ def nav(root, keys):
   """Trusted navigation by item access."""
   n = root
   for k in keys:
-    n = n.sym_getattr(k) if isinstance(n, pg.Object) else n[k]
+    n = n.sym_getattr(k) if isinstance(n, pg.Symbolic) else n[k]
   return n
 
 
